@@ -55,7 +55,7 @@ def programs(tier):
     yield from programs0(tier)
     for fl in annot.DEP_FLAVOURS[1:]:
         for space, ms, vals in programs0("quick"):
-            if space.split(":")[0] in ("i", "i1", "ii", "iii", "iv", "v", "ix", "x") and (tier != "quick" or space.split(":")[0] in ("i1", "ii", "iv", "v", "ix", "x")):
+            if space.split(":")[0] in ("i", "i1", "ii", "iii", "iv", "v", "ix", "x", "xi") and (tier != "quick" or space.split(":")[0] in ("i1", "ii", "iv", "v", "ix", "x", "xi")):
                 yield f"{space}@{fl}", ms, vals
 
 
@@ -154,6 +154,20 @@ def programs0(tier):
                 for members in ([["dep", "K0", po], other], [other, ["dep", "K0", po]]):
                     ms = [M(0, x, {"x": ["inter"] + members})] + ([M(1, x, {"x": st}, -1)] if st else [])
                     yield "x:intersection-of-dependents", ms, ovals
+    # (xi) combinations of combinations: every value-dependent member two levels down; an intersection of a plain
+    # class with a dependent type of WIDER bound as one arm of a union whose other arm admits the argument's class
+    nested = []
+    for pi in ("p2", "p3", "p6"):
+        nested += [["ounion", "str", ["inter", "int", ["dep", "int", pi]]], ["inter", "O", ["inter", "int", ["dep", "int", pi]]],
+                   ["ounion", ["inter", "str", ["dep", "O", pi]], ["lit", 0]], ["ounion", ["inter", "bool", ["dep", "int", pi]], ["lit", 2]],
+                   ["ounion", ["lit", 0], ["inter", "bool", ["dep", "O", pi]]]]
+    nested += [["ounion", ["ounion", ["lit", 0], ["lit", 1]], "str"], ["ounion", ["inter", "K1", ["dep", "K0", "qa"]], ["dep", "K0", "qb"]],
+               ["ounion", ["dep", "K0", "qb"], ["inter", "K1", ["dep", "K0", "qa"]]], ["ounion", "Z", ["inter", "K1", ["dep", "K0", "qa"]]]]
+    for t in nested:
+        for st in (None, "O", "int", "K0"):
+            ms = [M(0, x, {"x": t})] + ([M(1, x, {"x": st}, -1)] if st else [])
+            # (True == 1: whether a bool matches an int Literal is a matter of Python equality vs typing's reading, not judged)
+            yield "xi:nested-combinations", ms, ivals + ovals + (["4"] if '"lit"' in annot.canon(t) else ["True", "4"])
     # (ix) union with a dependent member whose bound is strictly narrower than another member (or that member's bound)
     nw = []
     for pi in ("p2", "p3", "p6"):
@@ -305,7 +319,7 @@ def main(tier):
              "/ class, a ParametrizedDependentType subclass, Dependent[bound, existing type] (spaces i1, ii, iv, v, ix, x; thorough also i, iii); integer domain {0,1,2} with ALL 8 predicates, bounds int / object; class bounds K0 / K1 with attribute predicates; "
              "<= 2 (thorough 3) dependent methods + <= 1 static method on the bound, a subclass or an unrelated class; priorities; "
              "one position, two positions, keyword-only dependent parameter, a union of two dependent types with different bounds; "
-             "a union whose dependent member has a strictly narrower bound than another member; intersections with dependent members; 4-5 single-valued Literal methods of which every proper subset carries a second dependent condition on the other position; "
+             "a union whose dependent member has a strictly narrower bound than another member; intersections with dependent members; combinations of combinations (dependent members two levels down, plain class & dependent type of wider bound inside a union); 4-5 single-valued Literal methods of which every proper subset carries a second dependent condition on the other position; "
              "every value of the corpus; oracle R1-R3 with the dependent clauses + every value a predicate is asked about must be an "
              "instance of its bound; non-trivial = calls with >= 2 applicable methods",
         assumptions=["reference semantics of vt/annot.py (dependent < static types comparable with its bound; equal bounds unordered; "
